@@ -18,11 +18,14 @@ Record uobs := mkUobs {
 }.
 
 Inductive event :=
-| EvUpdate (i : incoming) (o : upd_out) (same : bool) (ob : uobs)
-    (* one UpdateClientConnState; same = the caller's message is proto.Equal to
-       a snapshot taken before the call *)
-| EvMutate (ob : uobs).
+| EvUpdate (i : incoming) (refuse : bool) (o : upd_out) (same : bool) (ob : uobs)
+    (* one UpdateClientConnState; refuse = the fake ClientConn refuses to create
+       SubConns during it (factory failure or empty address list); same = the
+       caller's message is proto.Equal to a snapshot taken before the call *)
+| EvMutate (ob : uobs)
     (* the harness overwrote every field of every message it had passed in *)
+| EvShutdown (n : Z) (ob : uobs).
+    (* n connections of the pool reported connectivity.Shutdown *)
 
 Record gobs := mkGobs {
   g_err : bool;                      (* NewGCPMultiEndpoint failed *)
@@ -98,20 +101,31 @@ Definition uobs_eqb (x y : uobs) : bool :=
   res_eqb (ob_cfg x) (ob_cfg y) && list_eqb aff_pair_eqb (ob_table x) (ob_table y) &&
   Bool.eqb (ob_unresp x) (ob_unresp y) && (ob_pool x =? ob_pool y).
 
-(* monitor state: the observation that followed the first successful update *)
+(* the configuration-related part of an observation *)
+Definition view_eqb (x y : uobs) : bool :=
+  res_eqb (ob_cfg x) (ob_cfg y) && list_eqb aff_pair_eqb (ob_table x) (ob_table y) &&
+  Bool.eqb (ob_unresp x) (ob_unresp y).
+
+(* monitor state: the observation that followed the first accepted update *)
 Definition bal_event_ok (fixed : option uobs) (prev : option uobs) (ev : event) : bool * option uobs :=
   match ev with
   | EvMutate ob =>
       (match prev with Some p => uobs_eqb ob p | None => true end, fixed)
-  | EvUpdate i o same ob =>
+  | EvShutdown _ ob =>
+      (* whatever happens to the pool, the configuration stays *)
+      (match fixed with
+       | Some f => view_eqb ob f
+       | None => match ob_cfg ob with None => true | Some _ => false end
+       end, fixed)
+  | EvUpdate i refuse o same ob =>
       match fixed with
       | Some f =>
           (* "the configuration is fixed by the first resolver update" *)
-          (negb (uo_err o) && (uo_newsub o =? 0) && same && uobs_eqb ob f, fixed)
+          (negb (uo_err o) && same && view_eqb ob f, fixed)
       | None =>
           match i with
           | InForeign =>
-              (uo_err o && (uo_newsub o =? 0) && same &&
+              (uo_err o && (uo_created o =? 0) && same &&
                match ob_cfg ob with None => true | Some _ => false end, None)
           | _ =>
               match ob_cfg ob with
@@ -121,7 +135,8 @@ Definition bal_event_ok (fixed : option uobs) (prev : option uobs) (ev : event) 
                    effective_ok (incoming_cfg i) e &&
                    table_ok (methods e) (ob_table ob) &&
                    unresp_ok e (ob_unresp ob) &&
-                   (uo_newsub o =? min_size (pool_of e)) && (ob_pool ob =? min_size (pool_of e)),
+                   (* the pool starts with minSize connections when they can be created *)
+                   (refuse || ((uo_created o =? min_size (pool_of e)) && (ob_pool ob =? min_size (pool_of e)))),
                    Some ob)
               end
           end
@@ -129,7 +144,7 @@ Definition bal_event_ok (fixed : option uobs) (prev : option uobs) (ev : event) 
   end.
 
 Definition ev_obs (ev : event) : uobs :=
-  match ev with EvUpdate _ _ _ ob => ob | EvMutate ob => ob end.
+  match ev with EvUpdate _ _ _ _ ob => ob | EvMutate ob => ob | EvShutdown _ ob => ob end.
 
 Fixpoint bal_ok (fixed prev : option uobs) (evs : list event) : bool :=
   match evs with
@@ -249,31 +264,42 @@ Definition table_agrees (model : table) (dump : table) : bool :=
 Definition first_bad (checks : list (bool * dclass)) : option dclass :=
   match find (fun p => negb (fst p)) checks with Some p => Some (snd p) | None => None end.
 
+(* the observation the model predicts for its state, against the one read back *)
+Definition obs_checks (later : bool) (s : bstate) (ob : uobs) : list (bool * dclass) :=
+  [(res_eqb (ob_cfg ob) (b_cfg s), if later then DFixedOnce else DEffective);
+   (match b_cfg s with
+    | Some e => table_agrees (method_table e) (ob_table ob)
+    | None => is_nil (ob_table ob)
+    end, if later then DFixedOnce else DMethodTable);
+   (match b_cfg s with
+    | Some e => Bool.eqb (ob_unresp ob) (unresponsive_enabled e)
+    | None => negb (ob_unresp ob)
+    end, if later then DFixedOnce else DUnresponsive);
+   (ob_pool ob =? b_pool s, DSubconns)].
+
+Definition is_some {A} (o : option A) : bool := match o with Some _ => true | None => false end.
+
 (* compares one event with the model; returns the new model state *)
 Definition accept_event (s : bstate) (prev : option uobs) (ev : event) : option dclass * bstate :=
   match ev with
   | EvMutate ob =>
       (first_bad [(match prev with Some p => uobs_eqb ob p | None => true end, DAlias)], s)
-  | EvUpdate i o same ob =>
-      let (s', mo) := update s i in
-      let later := match s with Some _ => true | None => false end in
-      let cfg_class := if later then DFixedOnce else DEffective in
+  | EvShutdown n ob =>
+      let s' := shutdown s n in
+      (first_bad (obs_checks true s' ob ++
+                  (* the configuration did not change, so neither may anything the harness reads back of it *)
+                  [(match prev with Some p => view_eqb ob p | None => true end, DFixedOnce)]),
+       s')
+  | EvUpdate i refuse o same ob =>
+      let (s', mo) := update s i refuse in
+      let later := is_some (b_cfg s) in
       (first_bad
-         [(Bool.eqb (uo_err o) (uo_err mo), DOutputs);
-          (same, DAlias);
-          (res_eqb (ob_cfg ob) s', cfg_class);
-          (match s' with
-           | Some e => table_agrees (method_table e) (ob_table ob)
-           | None => is_nil (ob_table ob)
-           end, if later then DFixedOnce else DMethodTable);
-          (match s' with
-           | Some e => Bool.eqb (ob_unresp ob) (unresponsive_enabled e)
-           | None => negb (ob_unresp ob)
-           end, if later then DFixedOnce else DUnresponsive);
-          ((uo_newsub o =? uo_newsub mo) && (uo_updaddr o =? uo_updaddr mo) &&
-           (ob_pool ob =? match s' with Some e => min_size (pool_of e) | None => 0 end), DSubconns);
-          (* the model state did not change, so neither may anything the harness reads back *)
-          (if later then match prev with Some p => uobs_eqb ob p | None => false end else true, DFixedOnce)],
+         ([(Bool.eqb (uo_err o) (uo_err mo), DOutputs);
+           (same, DAlias)] ++
+          obs_checks later s' ob ++
+          [((uo_attempts o =? uo_attempts mo) && (uo_created o =? uo_created mo) &&
+            (uo_updaddr o =? uo_updaddr mo), DSubconns);
+           (if later then match prev with Some p => view_eqb ob p | None => false end else true, DFixedOnce)]),
        s')
   end.
 
@@ -309,7 +335,7 @@ Definition accept_case (c : case) : option (nat * dclass) :=
       end
   | CBalancer dmin dmax dstreams evs =>
       if (dmin =? defaultMinSize) && (dmax =? defaultMaxSize) && (dstreams =? defaultMaxStreams)
-      then accept_events 1 None None evs
+      then accept_events 1 init_state None evs
       else Some (0%nat, DConsts)
   | CGcp input g =>
       match first_bad [(negb (g_err g) && g_same g && g_fresh g &&
